@@ -29,6 +29,7 @@ EXC = [('R15', r'(?s)#if defined\(__cpp_exceptions\)((?:(?!#else|#endif).)*?)#el
        ('R7', r'canceled_\.store\((\w+),\s*std::memory_order_(\w+)\);', r'A_STORE_canceled(\1, MO_\2);'),
        ('R7', r'outstandingTaskCount_\.fetch_sub\(1,\s*std::memory_order_(\w+)\);', r'G_counter_dec(MO_\1);'),
        ('R7', r'guardException_\.compare_exchange_strong\((\w+),\s*(\w+),\s*std::memory_order_(\w+)\)', r'A_CAS_guard(&\1, \2, MO_\3)'),
+       ('R7', r'guardException_\.exchange\((\w+),\s*std::memory_order_(\w+)\)', r'A_XCHG_guard(\1, MO_\2)'),
        ('R7', r'guardException_\.store\((\w+),\s*std::memory_order_(\w+)\);', r'A_STORE_guard(\1, MO_\2);'),
        ('R7', r'guardException_\.load\(std::memory_order_(\w+)\)', r'A_LOAD_guard(MO_\1)'),
        ('R9', r'auto\s+status\s*=\s*kUnset;', 'int status = kUnset;'),
